@@ -34,6 +34,14 @@ _CMPOPS = {
 }
 
 
+def _canon_guard(c, p):
+    if c[0] == 'not' or c[0] == 'or' or (c[0] == 'cmp' and c[1] in ('!=', '<=', 'notin', 'isnot')):
+        n = T.not_(c)
+        if not (n[0] in ('not', 'or') or (n[0] == 'cmp' and n[1] in ('!=', '<=', 'notin', 'isnot'))):
+            return n, (not p)
+    return c, p
+
+
 class Event:
     __slots__ = ('kind', 'idx', 'line', 'guards', 'gkinds', 'loops', 'withs', 'trys', 'node', 'd')
 
@@ -44,7 +52,9 @@ class Event:
         # guards: (cond, polarity) pairs; gkinds: origin of each guard -
         # 'if' (lexically enclosing test) or the way the other arm left the
         # block ('raise', 'return', 'continue', 'break') for path guards
-        self.guards = tuple((c, p) for c, p, k in guards)
+        # one orientation per test: `if not x: A else: B` and `if x: B else: A` give A the guard
+        # (x, False) and B the guard (x, True)
+        self.guards = tuple(_canon_guard(c, p) for c, p, k in guards)
         self.gkinds = tuple(k for c, p, k in guards)
         self.loops = loops
         self.withs = withs
